@@ -208,6 +208,22 @@ func TestStreamStatus(t *testing.T) {
 	out.write(t, "status")
 }
 
+// TestStreamKeys generates the store-key codec stream (key builders and iterator parsers).
+func TestStreamKeys(t *testing.T) {
+	seed := uint64(envInt("VERIF_SEED", 1))
+	cases := envInt("VERIF_CASES", 2)
+	nops := envInt("VERIF_OPS", 400)
+	out := &streamOut{stats: map[string]int{}}
+	for i := 0; i < cases; i++ {
+		r := &Rng{s: seed*1000003 + uint64(i)*7919 + 131}
+		w := NewWorld(t, 1)
+		g := &KeysGen{w: w, r: r, stats: map[string]int{}}
+		g.Run(nops)
+		out.add(w, g.stats)
+	}
+	out.write(t, "keys")
+}
+
 // TestStreamProofs generates the state-proof verification stream (C08): real IAVL and real
 // Merkle-Patricia proofs against the three client types.
 func TestStreamProofs(t *testing.T) {
